@@ -1265,7 +1265,7 @@ class Interp:
                 ctx.assume(g)
         # recursion bookkeeping (variant / depth) when calling the function under proof
         top = self.frames[0].contract if self.frames else None
-        if top is not None and top is c:
+        if top is not None and (top is c or (top.rec_group is not None and top.rec_group == c.rec_group)):
             fr0 = self.frames[0]
             if c.decreases is not None:
                 ctx.oblige('%s/decreases' % site, z3.And(fr0.dec0 >= 0, c.decreases(cx) < fr0.dec0), kind='variant')
